@@ -124,43 +124,52 @@ def ob_kernel(key, cname, variant):
 
 
 def ob_gradient(variant):
-    """post: helmholtz_gradient_<variant>[i][re/im] == components 1..3 of fmm.helpers.helmholtz_kernel (gradient w.r.t. the test point)."""
+    """post: helmholtz_gradient_<variant>[i][re/im] == components 1..3 of fmm.helpers.helmholtz_kernel (gradient w.r.t. the test point), for every
+    (target, source) pair of ONE call of the Numba kernel with two targets and two sources (slot 4 * (target * nsources + source) + 1 + i), and the OpenCL
+    helmholtz_single_layer value == component 0."""
     from bempp_cl.api.fmm import helpers as FH
 
     out = []
     for case_name in ("ki!=0", "ki==0"):
         S.reset()
         par = [c for c in KR.param_cases("helmholtz_single_layer") if c[0] == case_name][0][1]
-        X, Y, NX, NY = KR.inputs("regular", 1)
-        nb = KR.pyfunc(FH.helmholtz_kernel)(X.reshape(3, 1), Y, KR.objarr(par), np.dtype(object), np.dtype(object))
+        X, Y, NX, NY = KR.inputs("regular", 2)
+        T = S.symarray("t", (3, 2))
+        nb = KR.pyfunc(FH.helmholtz_kernel)(T, Y, KR.objarr(par), np.dtype(object), np.dtype(object))
         funcs = header("kernels.h", ("REALTYPEVEC",))
         ev = C.Evaluator(funcs, consts())
-        res = C.Cell()
-        if variant == "novec":
-            ty, tn = C.Vec(list(Y[:, 0])), C.Vec(list(NY[:, 0]))
-        else:
-            ty, tn = C.array_cell(list(Y[:, 0])), C.array_cell(list(NY[:, 0]))
+        bad = None
         try:
-            ev.call("helmholtz_gradient_" + variant, [C.Vec(list(X)), ty, C.Vec(list(NX)), tn,
-                                                      C.array_cell([S.Sym._coerce(p) for p in par]), res])
+            for ti in range(2):
+                for j in range(2):
+                    res = C.Cell()
+                    if variant == "novec":
+                        ty, tn = C.Vec(list(Y[:, j])), C.Vec(list(NY[:, j]))
+                    else:
+                        ty, tn = C.array_cell(list(Y[:, j])), C.array_cell(list(NY[:, j]))
+                    ev.call("helmholtz_gradient_" + variant, [C.Vec(list(T[:, ti])), ty, C.Vec(list(NX)), tn, C.array_cell([S.Sym._coerce(p) for p in par]), res])
+                    base = 4 * (ti * 2 + j)
+                    for i in range(3):
+                        n = S.Sym._coerce(nb[base + 1 + i])
+                        for part, idx, nv in (("re", (i, 0), n.real), ("im", (i, 1), n.imag)):
+                            if idx not in res.v:
+                                bad = ("missing", (ti, j) + idx, None)
+                                break
+                            d = res.v[idx] - nv
+                            if not S.is_zero(d):
+                                bad = (part, (ti, j) + idx, d)
+                                break
+                        if bad:
+                            break
+                    if bad:
+                        break
+                if bad:
+                    break
         except C.Unsupported as e:
             out.append((case_name, undecided("C front end: %s" % e)))
             continue
-        bad = None
-        for i in range(3):
-            n = S.Sym._coerce(nb[1 + i])
-            for part, idx, nv in (("re", (i, 0), n.real), ("im", (i, 1), n.imag)):
-                if idx not in res.v:
-                    bad = ("missing", idx, None)
-                    break
-                d = res.v[idx] - nv
-                if not S.is_zero(d):
-                    bad = (part, idx, d)
-                    break
-            if bad:
-                break
         if bad is None:
-            out.append((case_name, proved("cfront+sym-normal-form", "6 components equal")))
+            out.append((case_name, proved("cfront+sym-normal-form", "6 components x 2 targets x 2 sources of one kernel call equal")))
         elif bad[2] is None:
             out.append((case_name, violated("result%s never written" % (list(bad[1]),), signature="helmholtz_gradient_" + variant)))
         else:
@@ -168,8 +177,8 @@ def ob_gradient(variant):
             if w is None:
                 out.append((case_name, undecided("difference in component %s not identically zero, no witness" % (bad[1],))))
             else:
-                out.append((case_name, violated("helmholtz_gradient_%s component %s differs from fmm.helpers.helmholtz_kernel: %s" % (variant, bad[1], w[1]),
-                                                 witness=w[0], signature="helmholtz_gradient_" + variant)))
+                out.append((case_name, violated("helmholtz_gradient_%s (target, source, component, re/im) = %s differs from fmm.helpers.helmholtz_kernel called with 2 targets x 2 sources: %s"
+                                                 % (variant, bad[1], w[1]), witness=w[0], signature="helmholtz_gradient_" + variant)))
     return out
 
 
